@@ -382,6 +382,10 @@ func (sc *ServerConfig) Initialize(tlsCertStore *tlscerts.Store, listenConfigCac
 		if !sc.TunnelRemoteAddress.IsValid() {
 			return errors.New("tunnelRemoteAddress is required for simple tunnel")
 		}
+		if sc.udpEnabled && sc.TunnelUDPTargetOnly && !sc.TunnelRemoteAddress.IsIP() {
+			// Replies are matched against the IP address and port of the destination.
+			return errors.New("tunnelUDPTargetOnly requires tunnelRemoteAddress to be an IP address")
+		}
 
 	case "http":
 		if err := sc.HTTP.Validate(); err != nil {
